@@ -170,6 +170,46 @@ def translateQueryMatch (name : String) (sm : StringMatch) : QueryMatcher :=
   | .regex s => { name := name, spec := .regex s }
   | .unset => { name := name, spec := .present true }
 
+/-! JWT-claim header keys (`jwt.ToRoutingClaim`): `@request.auth.claims.a.b` or `@request.auth.claims[a][b]`
+    become dynamic-metadata matchers instead of header matchers. -/
+
+def claimPrefix : String := "@request.auth.claims"
+
+def dropChars (n : Nat) (s : String) : String := String.ofList (s.toList.drop n)
+
+def strEndsWith (s suf : String) : Bool := suf.toList.reverse.isPrefixOf s.toList.reverse
+
+/-- `jwt.ToRoutingClaim(name).Claims` when `.Match`. -/
+def claimPath (name : String) : Option (List String) :=
+  if !hasPrefix claimPrefix (lower name) then none else
+  let rest := dropChars claimPrefix.length name
+  if hasPrefix "." rest && rest.length > 1 then some ((dropChars 1 rest).splitOn ".")
+  else if hasPrefix "[" rest && strEndsWith rest "]" && rest.length > 2 then
+    some ((String.ofList ((rest.toList.drop 1).dropLast)).splitOn "][")
+  else none
+
+def isClaimKey (e : String × StringMatch) : Bool := (claimPath e.1).isSome
+
+/-- `util.ConvertToEnvoyMatch` as the value of a metadata matcher (`unset` gives a nil matcher, printed
+    as `present`; outside the generated grammar). -/
+def claimSpec : StringMatch → StrSpec
+  | .exact s => .exact s
+  | .pfx s => .pfx s
+  | .regex s => .regex s
+  | .unset => .present true
+
+def claimMatchers (invert : Bool) (es : List (String × StringMatch)) : List MetaMatcher :=
+  es.filterMap fun e => (claimPath e.1).map fun p => { path := p, spec := claimSpec e.2, invert := invert }
+
+/-- Walking a Go map in sorted key order. -/
+def insertEntry (e : String × StringMatch) : List (String × StringMatch) → List (String × StringMatch)
+  | [] => [e]
+  | x :: xs => if x.1 < e.1 then x :: insertEntry e xs else e :: x :: xs
+
+def sortEntries : List (String × StringMatch) → List (String × StringMatch)
+  | [] => []
+  | e :: es => insertEntry e (sortEntries es)
+
 /-- Stable insertion by query-parameter name: `TranslateRouteMatch` walks `in.QueryParams` in sorted key
     order (/repo 2dac7a8). -/
 def insertQByName (q : QueryMatcher) : List QueryMatcher → List QueryMatcher
@@ -211,18 +251,19 @@ def pseudoHeader (name : String) : Option StringMatch → List HeaderMatcher
 
 /-- `TranslateRouteMatch`. -/
 def translateRouteMatch (sem : Semantics) : Option HTTPMatch → RouteMatch
-  | none => { path := .pfx "/", caseSensitive := true, headers := [], query := [] }
+  | none => { path := .pfx "/", caseSensitive := true, headers := [], query := [], metadata := [] }
     -- nil match: `CaseSensitive` stays nil, which Envoy reads as the default `true`
   | some m =>
     { path := translateUri sem m.uri
       caseSensitive := !m.ignoreUriCase
       headers :=
-        sortByName (m.headers.map (fun e => translateHeaderMatch e.1 e.2)
-                    ++ m.withoutHeaders.map (fun e => translateWithoutHeader e.1 e.2))
+        sortByName (((sortEntries m.headers).filter (fun e => !isClaimKey e)).map (fun e => translateHeaderMatch e.1 e.2)
+                    ++ ((sortEntries m.withoutHeaders).filter (fun e => !isClaimKey e)).map (fun e => translateWithoutHeader e.1 e.2))
         ++ pseudoHeader ":method" m.method
         ++ pseudoHeader ":authority" m.authority
         ++ pseudoHeader ":scheme" m.scheme
-      query := sortQByName (m.queryParams.map (fun e => translateQueryMatch e.1 e.2)) }
+      query := sortQByName (m.queryParams.map (fun e => translateQueryMatch e.1 e.2))
+      metadata := claimMatchers false (sortEntries m.headers) ++ claimMatchers true (sortEntries m.withoutHeaders) }
 
 /-! ## Actions -/
 
@@ -319,14 +360,14 @@ def translateRoute (c : Ctx) (vs : VirtualService) (r : HTTPRoute) (m : Option H
 
 /-! ## Catch-all detection and the rule loop -/
 
-/-- `IsCatchAllRoute` (dynamic-metadata matchers are outside the grammar, hence always empty). -/
+/-- `IsCatchAllRoute`. -/
 def isCatchAll (r : Route) : Bool :=
   (match r.match.path with
    | .pfx p => p == "/"
    | .pathSepPrefix p => p == "/"
    | .safeRegex x => x == ".*"
    | .path _ => false)
-  && r.match.headers.isEmpty && r.match.query.isEmpty
+  && r.match.headers.isEmpty && r.match.query.isEmpty && r.match.metadata.isEmpty
 
 /-- The inner `for _, match := range http.Match` loop: emitted routes and the `catchall` flag. -/
 def matchLoop (c : Ctx) (vs : VirtualService) (r : HTTPRoute) : List HTTPMatch → List Route × Bool
